@@ -69,6 +69,7 @@ SEE_OTHER = 303
 NOT_MODIFIED = 304
 USE_PROXY = 305
 TEMPORARY_REDIRECT = 307
+PERMANENT_REDIRECT = 308
 
 # client error
 BAD_REQUEST = 400
@@ -129,6 +130,7 @@ STATUS_DESCRIPTIONS = {
     305: 'Use Proxy',
     306: '(Unused)',
     307: 'Temporary Redirect',
+    308: 'Permanent Redirect',
 
     400: 'Bad Request',
     401: 'Unauthorized',
